@@ -11,8 +11,11 @@
      remove   [link bit / prev checks at the call] KR1 node.next.load / KR2 prev.next.store (the unlink commit)
      Entry::drop, Entry::is_link: one transition (no hooked access), on the consumer side.
 
-   Nodes are numbered in swap order (0 = the initial stub); a node identity is never reused (the code's
-   pointer comparisons are therefore modelled without address re-use, see Properties/C19.v, assumptions).
+   Nodes are numbered in swap order (0 = the initial stub); a node identity is never reused.  The code's pointer
+   comparisons are modelled as comparisons of identities; ListV1Aba.v adds addresses (an allocator that may
+   re-use the address of a freed node) and proves that push compares live nodes only, where the two agree.
+   [step_old] is push as it was before /repo b8fae1d (consumer position read after the store), kept for the
+   refutation witness of ListV1Aba.v.
    Any number of producers (nat), one consumer, any client program: an idle actor may start any operation.
    Ghost fields are updated by [step] and never read by it (monitors only accumulate). *)
 From Coq Require Import List Arith Bool.
